@@ -865,6 +865,9 @@ func (g *evGen) cleanupRecursion(d int) string {
 // loopExpr: dolist / dotimes / do / do*. As a statement the value is ignored.
 func (g *evGen) loopExpr(d int, asStmt bool) string {
 	count := 1 + g.r.Intn(3)
+	if g.r.Chance(12) {
+		count = 0 // boundary: the body is never evaluated, the result form sees the variable all the same
+	}
 	if g.iter*count > 48 {
 		return g.leaf(tI)
 	}
@@ -1183,13 +1186,35 @@ func (g *evGen) exitOrCtlKind(t, d, kind int) string {
 		if g.r.Chance(50) {
 			parts = append(parts, fmt.Sprintf("(vtr (vopen %s))", sv))
 		}
+		// the state of the stream when the body is left is a dimension of its own: still open, closed by the
+		// body (before or between its forms; twice: closing a closed stream is a no-op), opened as a probe
+		opts := ""
+		switch k := g.r.Intn(100); {
+		case k < 25:
+			opts = " :direction :input"
+		case k < 40:
+			opts = " :direction :probe"
+		}
+		closeForm := fmt.Sprintf("(vtr (close %s))", sv)
+		if g.r.Chance(35) {
+			parts = append(parts, closeForm)
+		}
+		if g.r.Chance(30) {
+			parts = append(parts, g.sub("with-open-file.body", func() string { return g.stmt(d - 1) }))
+			if g.r.Chance(60) {
+				parts = append(parts, closeForm)
+				if g.r.Chance(40) {
+					parts = append(parts, fmt.Sprintf("(vtr (vopen %s))", sv))
+				}
+			}
+		}
+		if g.r.Chance(25) {
+			// an error (of one of the classes) after whatever was done to the stream
+			parts = append(parts, g.sub("with-open-file.body", func() string { return g.exitOrCtlKind(tI, d-1, 3) }))
+		}
 		parts = append(parts, g.seq("with-open-file", t, d, 2))
 		restore2()
 		restore()
-		opts := ""
-		if g.r.Chance(30) {
-			opts = " :direction :input"
-		}
 		return fmt.Sprintf("(let ((%s nil)) (unwind-protect (with-open-file (%s \"/dev/null\"%s) (setq %s %s) %s) (vtr (vopen %s))))",
 			h, sv, opts, h, sv, strings.Join(parts, " "), h)
 	}
@@ -1390,6 +1415,32 @@ func (g *evGen) maker() string {
 }
 
 // evGenProgram generates one composite program.
+// closureDefun: (let ((c init)) (defun f (q0) …c…)) — a named function closing over a let variable, called by the
+// program from outside that let. The name is new, or defined before (redefinition, the old definition called or not),
+// or referred to by the body of an earlier defun (forward reference).
+func (g *evGen) closureDefun() string {
+	g.count("defun-closure")
+	// the closed-over variable has a name of its own also in shadow mode: on the unchanged tree a free variable of a
+	// function body is looked up in the CALLER's bindings first (listed: closure.read.let-shadow,
+	// defun.free-var-lexical), so a caller that binds the same name would hit that finding, not this template's point
+	name := g.fresh("f")
+	g.n++
+	c := fmt.Sprintf("cv%s%d", g.prefix, g.n)
+	pre := ""
+	switch g.r.Intn(4) {
+	case 1:
+		pre = fmt.Sprintf("(defun %s (q0) (vtr (+ q0 1000))) (vtr (%s 1)) ", name, name)
+	case 2:
+		pre = fmt.Sprintf("(defun %s (q0) (+ q0 1000)) ", name)
+	case 3:
+		u := g.fresh("f")
+		pre = fmt.Sprintf("(defun %s (q0) (%s q0)) ", u, name)
+		g.funs = append(g.funs, gfun{name: u, arity: 1})
+	}
+	g.funs = append(g.funs, gfun{name: name, arity: 1})
+	return pre + fmt.Sprintf("(let ((%s %s)) (defun %s (q0) (setq %s (+ %s q0)) (vtr %s)))", c, g.lit(), name, c, c, c)
+}
+
 func evGenProgram(r *lib.Rng, caseID int, ctl bool, avoid func(cell, exit string) bool, hist map[string]int) string {
 	g := &evGen{r: r, prefix: fmt.Sprintf("k%d", caseID), ctl: ctl, avoid: avoid, hist: hist, iter: 1}
 	g.shadow = r.Chance(30)
@@ -1419,6 +1470,9 @@ func evGenProgram(r *lib.Rng, caseID int, ctl bool, avoid func(cell, exit string
 	}
 	if !g.shadow && r.Chance(35) {
 		parts = append(parts, g.maker())
+	}
+	if r.Chance(25) {
+		parts = append(parts, g.closureDefun())
 	}
 	d := 2 + r.Intn(4) // generator nesting depth 2..5 (plus the defun level)
 	t := []int{tI, tI, tL, tB}[r.Intn(4)]
